@@ -466,3 +466,75 @@ pub fn refusal_campaign(seed: u64, bases: &str, per_image: u64) {
     println!("STAT refusal_calls {}", calls);
     println!("STAT refused {}", refused);
 }
+
+// ---------------------------------------------------------------------------------------------
+// The allocation model on damaged tables.  The theorems of C11 (`Phys/NoPanic*.lean`) are about the
+// Lean model started from *any* tables; this campaign ties that model to the library on damaged
+// files as well: the two-level model is loaded from each accepted damaged image (`load`), the same
+// calls are applied, and result, file image (length + hash) and allocator caches are compared after
+// every call — up to the first call that fails on either side (after a failure the library is
+// half-way through an update the model does not follow).
+
+/// ops: `load <image>` then API lines; impl: `result | P len hash | C caches` per line
+pub fn lockstep(seed: u64, bases: &str, count: u64, max_ops: u64, outdir: &str, ops_path: &str, impl_path: &str) {
+    use std::fmt::Write as _;
+    let mut rng = Rng::new(seed);
+    let files: Vec<String> = std::fs::read_to_string(bases).unwrap().lines().filter(|l| !l.is_empty()).map(|s| s.to_string()).collect();
+    let images: Vec<Vec<u8>> = files.iter().filter_map(|f| std::fs::read(f).ok()).filter(|b| b.len() >= 1536 && b.len() < 400_000).collect();
+    std::fs::create_dir_all(outdir).unwrap();
+    let (mut ops_out, mut impl_out) = (String::new(), String::new());
+    let mut hist = std::collections::BTreeMap::new();
+    let (mut histories, mut calls) = (0u64, 0u64);
+    for k in 0..count {
+        let mut b = rng.pick(&images).clone();
+        let mut classes: Vec<&'static str> = Vec::new();
+        for _ in 0..(1 + rng.below(2)) {
+            classes.push(targeted(&mut rng, &mut b));
+        }
+        let shared = SharedFile::new(b.clone());
+        let Ok(Ok(comp)) = catch(|| CompoundFile::open(Backend::Mem(shared.clone()))) else { continue };
+        let path = format!("{}/D{}.cfb", outdir, k);
+        std::fs::write(&path, &b).unwrap();
+        let mut real = Real::new();
+        real.file = Some(ImageSource::Mem(shared));
+        real.comp = Some(comp);
+        progress(&format!("new lockstep {}", path));
+        writeln!(ops_out, "load {}", path).unwrap();
+        writeln!(impl_out, "ok | {}", crate::phys::tail(&real)).unwrap();
+        histories += 1;
+        for c in &classes {
+            *hist.entry(format!("lockstep:{}", c)).or_insert(0u64) += 1;
+        }
+        let mut open: Vec<(u32, String)> = Vec::new();
+        for step in 0..(2 + rng.below(max_ops)) {
+            let listing = catch(|| {
+                let c = real.comp.as_ref().unwrap();
+                c.walk().take(200).map(|e| (e.path().to_string_lossy().to_string(), e.is_stream(), e.len())).collect::<Vec<(String, bool, u64)>>()
+            });
+            let Ok(listing) = listing else { break };
+            let streams: Vec<(String, u64)> = listing.iter().filter(|x| x.1).map(|x| (x.0.clone(), x.2)).collect();
+            let storages: Vec<String> = listing.iter().filter(|x| !x.1 && x.0 != "/").map(|x| x.0.clone()).collect();
+            let line = gen_line(&mut rng, &streams, &storages, &mut open, step, false);
+            let r = real.exec(&line);
+            calls += 1;
+            writeln!(ops_out, "{}", line).unwrap();
+            writeln!(impl_out, "{} | {}", r, crate::phys::tail(&real)).unwrap();
+            if std::env::var("VERIF_LK_DUMP").ok().and_then(|v| v.parse::<u64>().ok()) == Some(k) {
+                // debugging aid: the real image after every step of case k
+                let _ = std::fs::write(format!("{}/D{}_step{}.impl", outdir, k, step), real.image());
+                if let Some(m) = &real.last_panic { eprintln!("case {} step {}: {}", k, step, m); }
+                eprintln!("case {} step {}: {} => {}", k, step, crate::apigen::short(&line), r);
+            }
+            if r == "panic" || r.starts_with("err") {
+                break;
+            }
+        }
+    }
+    std::fs::write(ops_path, ops_out).unwrap();
+    std::fs::write(impl_path, impl_out).unwrap();
+    println!("STAT lockstep_histories {}", histories);
+    println!("STAT lockstep_calls {}", calls);
+    for (k, v) in hist {
+        println!("HIST {} {}", k, v);
+    }
+}
